@@ -325,7 +325,8 @@ func configCase(r *report.Run, regs [][2]string) error {
 		for _, rg := range regs {
 			w.add(rg[0], rg[1])
 		}
-		for i, e := range append(append([]string{}, endpoints...), "dtn://node/nobody") {
+		// two endpoints nobody has registered: some application endpoint of this node, and the bare node ID itself
+		for i, e := range append(append([]string{}, endpoints...), "dtn://node/nobody", "dtn://node/") {
 			w.deliverAndCheck(e, i%2 == 0)
 			// the same endpoint again: once per accepted copy
 			if i == 0 {
